@@ -15,7 +15,7 @@ from . import series_common as sc
 
 ID = "C19"
 PROPS = "props/C19.v"
-GENERATED = [tr.OUT]
+GENERATED = [tr.OUT, tr.OUT4]
 CASE_DEPS = ["lib/CaseUtil.vo", "lib/DbCase.vo", "model/Databox.vo", "model/Slate.vo", "model/Csv.vo"]
 ALLOWED_AXIOMS: set = set()
 TRUSTED = [
@@ -24,12 +24,18 @@ TRUSTED = [
     "CPython's csv module (quoting, delimiter), numpy.genfromtxt's line splitting, float.__repr__/float(), numpy.round and "
     "str(Period)/Period.from_sdmx_string are glue: recorded per run as tables and looked up by the executable model",
     "the Series model of C10 (model/Series.v, model/SeriesOps.v) for set_data / overlay / underlay / clip / hstack / trim",
+    "translator/csvfmt.py round-4 fragments -> gen/Csv4Gen.v: the keep test of the exporter's frequency -> periods table "
+    "(_resolve_frequency_span, translated; the other statements and get_span_by_frequency's EmptySpan cases compared with "
+    "their expected shapes) and the loop / strategy functions / dispatch table of databoxes/_merge.py (compared with the "
+    "shapes modelled by model/Databox.v: merge_step); fail closed",
 ]
 ASSUMPTIONS = [
     "csv_roundtrip is proved over abstract injective codecs (period <-> text, number <-> text); the period codecs are C11's",
     "the sheet is a grid of cells: the theorem does not cover cells that the csv module and genfromtxt split differently "
     "(a line break inside a description, a delimiter occurring inside a number or a period string)",
-    "Python aliasing is outside the pure model: merge stores the other databox's objects; the harness passes copies",
+    "Python aliasing is outside the pure model (value semantics): merge stores the other databox's objects, the harness "
+    "passes copies; that copy() returns a databox sharing no mutable item with its source is checked by the correspondence "
+    "(every databox of the session is compared after each history) and by the falsifier (sessions), not proved",
     "strict_names=True and start_period_only=True are not modelled",
 ]
 MANIFEST = {
@@ -398,7 +404,7 @@ def gen_op(rng, R, w: World) -> dict:
         src = rng.choice([i for i in range(NREG) if i != dst])
         f = rng.choice(w.freqs)
         return {"op": "prepend", "dst": dst, "src": src, "f": f, "e": w.base[f] + rng.randint(-3, 8)}
-    srcs = [rng.randrange(NREG) for _ in range(rng.choice([1, 1, 1, 2]))]
+    srcs = [rng.randrange(NREG) for _ in range(rng.choice([1, 1, 2, 2, 3]))]
     return {"op": "merge", "dst": dst, "srcs": srcs, "single": len(srcs) == 1 and rng.random() < 0.6,
             "strategy": rng.choice(STRATEGIES)}
 
@@ -485,20 +491,27 @@ def gen_history(rng, nops: int) -> dict:
             ops.append(op)
             outs.append({"err": code, "exc": f"{type(e).__name__}: {e}"[:160]})
             break
-    return {"init": init, "ops": ops, "outs": outs}
+    # every databox of the session after the history (not after an operation that raised: it may have stopped half way)
+    finals = None
+    if ops and len(ops) == len(outs) and "ok" in outs[-1]:
+        finals = [observe_db(db) for db in R]
+        if not all(representable(o) for o in finals):
+            finals = None
+    return {"init": init, "ops": ops, "outs": outs, "finals": finals}
 
 
 def c_history(h) -> str:
     init = coq_list([c_db(s) for s in h["init"]], sep=";\n    ")
     ops = coq_list([c_op(o) for o in h["ops"]], sep=";\n    ")
     outs = coq_list([c_res_db(o) for o in h["outs"]], sep=";\n    ")
-    return f"  ({init},\n   {ops},\n   {outs})"
+    fin = "None" if h.get("finals") is None else "Some " + coq_list([c_db(s) for s in h["finals"]], sep=";\n    ")
+    return f"  ({init},\n   {ops},\n   {outs},\n   {fin})"
 
 
 def ops_shard(hs) -> str:
-    return (HEADER + "Definition hs : list (dregs FA * list dop * list (res (databox FA))) := [\n"
+    return (HEADER + "Definition hs : list (dregs FA * list dop * list (res (databox FA)) * option (list (databox FA))) := [\n"
             + ";\n".join(c_history(h) for h in hs) + "\n].\n"
-            + "Eval vm_compute in (failing_codes (map (check_ops tb) hs) 0).\n")
+            + "Eval vm_compute in (failing_codes (map (check_ops_all tb) hs) 0).\n")
 
 
 # ====================================================================== dataslates
@@ -746,8 +759,9 @@ def rand_csv_db(rng) -> tuple[list, dict]:
     base = {f: base_start(rng, f) for f in FREQ_LIST}
     names = rng.sample(NAME_POOL, rng.randint(1, 9))
     db = []
+    p_ser = rng.choice([0.8, 0.8, 0.8, 0.8, 0.5, 0.0])       # 0.0: no dated series at all (a sheet without data rows)
     for n in names:
-        q = rng.random()
+        q = rng.random() * 0.8 / p_ser if p_ser else 0.95
         if q < 0.8:
             f = rng.choice(freqs)
             db.append([n, rand_series(rng, f, rng.choice([1, 1, 2, 3]), base[f] + rng.randint(-3, 5), maxlen=8)])
@@ -1055,6 +1069,9 @@ def correspondence(ctx) -> CorrResult:
         _bump(d["options"], "names" if case["names"] is not None else "all-names")
         _bump(d["options"], "span" if case["span"] else "frequency_span" if case["fspan"] else "default-span")
         _bump(d["options"], "description_row" if case["desc"] else "no-description_row")
+        ne = sum(1 for _, it_ in case["db"] if it_["k"] == "ser" and it_["start"] is None)
+        nd = sum(1 for _, it_ in case["db"] if it_["k"] == "ser" and it_["start"] is not None)
+        _bump(d.setdefault("empty_series", {}), "none" if not ne else "only-empty-series" if not nd else "with-empty-series")
         if "ok" in grid:
             nb = sum(1 for c in (grid["ok"][0] if grid["ok"] else []) if c.startswith("__"))
             _bump(d["blocks"], str(nb))
@@ -1162,8 +1179,9 @@ def correspondence(ctx) -> CorrResult:
                 "compared; slate methods: the same followed by 0-3 of remove_periods_from_start / _from_end, add_periods_to_end, "
                 "remove_initial, remove_terminal, rename, base_periods=..., then names, periods, base periods, arrays and "
                 "to_databox(span=full|base) are compared. ops: histories of up to 8 databox operations over 3 databoxes with random name selections "
-                "(lists, single names, predicates, renaming functions), the destination databox compared after every "
-                "step. non-trivial = at least one block and 2 data rows / a non-empty slate / 3+ executed operations; "
+                "(lists, single names, predicates, renaming functions; merge of 1-3 databoxes in one call, all strategies), "
+                "the destination databox compared after every step and every databox of the session after the history. "
+                "csv databoxes include sheets of empty series only (no data rows). non-trivial = at least one block and 2 data rows / a non-empty slate / 3+ executed operations; "
                 "distinct = distinct case text")
     res.samples = [
         {"csv_case": _csv_input(csv_items[0][0]), "grid": csv_items[0][1].get("ok", [])[:4]},
@@ -1211,6 +1229,10 @@ def _disagreement(kind, item, code) -> Disagreement:
                  3: "slate:to_databox(base)-after-methods"}.get(code, "slate:methods")
         return Disagreement(where, case, "model differs", {1: st, 2: full, 3: base}.get(code))
     h = item
+    if code == 1000:
+        return Disagreement("ops:session-state", {"init": h["init"], "ops": h["ops"]},
+                            "every databox of the session after the history (value semantics: only the destination of an "
+                            "operation changes)", h.get("finals"))
     step = code - 1
     op = h["ops"][step] if step < len(h["ops"]) else None
     return Disagreement(f"ops:{op['op'] if op else '?'}", {"init": h["init"], "ops": h["ops"][:step + 1]},
